@@ -180,6 +180,11 @@ LITERALS = [
     ('string array whose elements contain =', 'a str[3] = ["mode=fast","n=2","plain"]', 'a', ['mode=fast', 'n=2', 'plain'], None, (S, None, None)),
     ('table column name with a dot', 't table = """\npos.x float cm\nt-max float32 s\n\n1.5 2\n2.5 3\n"""', 't.pos.x', [1.5, 2.5], 'cm', (F, 64, None)),
     ('table column name with a hyphen', 't table = """\npos.x float cm\nt-max float32 s\n\n1.5 2\n2.5 3\n"""', 't.t-max', [2.0, 3.0], 's', (F, 32, None)),
+    ('unsigned node written twice keeps width and sign', 'g\n  c uint16 = 128\ng.c uint16 = 256', 'g.c', 256, None, (I, 16, True)),
+    ('uint64 written twice keeps width and sign', 'n uint64 = 1\nn uint64 = 18446744073709551615', 'n', 18446744073709551615, None, (I, 64, True)),
+    ('float32 written twice keeps its width', 'h float32 = 1.5 m\nh float32 = 2.5 m', 'h', 2.5, 'm', (F, 32, None)),
+    ('block array closed directly behind its last row', 'edges float[3] = """\n[0.5,\n 1e3,\n 2]""" m\nb int = 1', 'edges', [0.5, 1000.0, 2.0], 'm', (F, 64, None)),
+    ('node after a block closed behind its last row', 'edges float[3] = """\n[0.5,\n 1e3,\n 2]""" m\nb int = 1', 'b', 1, None, (I, 32, False)),
     ('none for an array node', 'a int[3] = none', 'a', None, None, (I, 32, False)), ('none for a matrix node with unit', 'a float32[2,2] = none cm', 'a', None, 'cm', (F, 32, None)),
     ('comment containing a minus after a unit', 'a float = 3 km  # outer - inner', 'a', 3.0, 'km', (F, 64, None)), ('comment containing a slash after a unit', 'a float = 3 km # a / b', 'a', 3.0, 'km', (F, 64, None)),
     ('comment containing a star after a unit', 'a float = 3 km # 2 * x', 'a', 3.0, 'km', (F, 64, None)), ('comment containing a plus, no unit', 'a int = 3 # x + y', 'a', 3, None, (I, 32, False)),
@@ -195,6 +200,32 @@ LITERALS = [
 REJECT = [('array with too few values', 'a int[3:] = [1,2]'), ('array with too many values', 'a int[:2] = [1,2,3]'), ('scalar node given an array', 'a int = [1,2]'),
           ('wrong exact size', 'a bool[4] = [true,false]'), ('matrix second dimension too big', 'a int[2,:2] = [[1,2,3],[4,5,6]]'), ('unknown type', 'a double = 1'),
           ('bad bool literal', 'a bool = yes'), ('bad int literal', 'a int = 1.5x'), ('name with blank inside', 'a b int = 1x y'), ('unterminated block', 'a str = """\nabc')]
+FILE_SRC = '''
+import tempfile, os
+def run(v, O):
+    # the same text loaded from a file, flush left and uniformly indented: paths do not depend on the indentation of the root level
+    out = []
+    d = tempfile.mkdtemp(prefix='c13_')
+    try:
+        for label, text, want in v.cases:
+            for pad in ('', '  ', '      '):
+                p = os.path.join(d, 'f.dip')
+                with open(p, 'w') as fh:
+                    fh.write('\\n'.join((pad + l if l.strip() else l) for l in text.split('\\n')) + '\\n')
+                def go():
+                    with DIP() as dip:
+                        dip.add_file(p)
+                        return dip.parse().data(Format.TUPLE)
+                r = outcome(go)
+                out.append((f'{label} (root indented by {len(pad)}): parameters', O.same(r, ('ok', want))))
+        return out
+    finally:
+        import shutil
+        shutil.rmtree(d, ignore_errors=True)
+'''
+FILES = [('groups and nodes', 'sim\n  n int = 1\nbox\n  size\n    x float = 2 m\nk int = 3', {'sim.n': 1, 'box.size.x': (2.0, 'm'), 'k': 3}),
+         ('first line is a node', 'a int = 1\nb int = 2\ng\n  c int = 3', {'a': 1, 'b': 2, 'g.c': 3}),
+         ('comment first', '# header\na int = 1\n\nb\n  c str = x', {'a': 1, 'b.c': 'x'})]
 REJ_SRC = '''
 def run(v, O):
     return [(f'rejected: {label}', O.raises(lambda t=t: dip_parse(t))) for label, t in v.cases]
@@ -292,6 +323,7 @@ def scenarios(tier, seed):
     k = 6
     for c in range(0, len(LITERALS), k):
         S.append(Scenario(f'literals/{c // k}', LIT_SRC, {}, consts={'cases': LITERALS[c:c + k]}, preamble=PRE, what='literal forms ' + ', '.join(x[0] for x in LITERALS[c:c + k]), samples=1))
+    S.append(Scenario('files', FILE_SRC, {}, consts={'cases': FILES}, preamble=PRE, what='texts loaded with add_file, flush left and uniformly indented', samples=1))
     S.append(Scenario('rejected', REJ_SRC, {}, consts={'cases': REJECT}, preamble=PRE, what='texts that violate a declared shape/type', samples=1))
     S.append(Scenario('canary/parent', TREE_SRC, {'w0': 'int', 'w1': 'int', 'w2': 'int', 'x1': 'real', 'x2': 'real'}, ['v.w0 >= 0', 'v.w1 > v.w0', 'v.w2 == v.w1'],
                       consts={'prog': [('group', 'g'), ('def', 'a', 'x1', 0), ('def', 'b', 'x2', 0)]},
